@@ -89,6 +89,14 @@ MAPPINGS = {
   rr:predicateObjectMap [ rr:predicate ex:knows ; rr:objectMap [ rr:template "http://ex/p/{{age}}" ] ; rr:graph ex:g2 ] .
 ''',
 }
+# a mapping one of whose groups yields no statement at all (its source has a header and no rows): nothing may be written for it
+MAPPINGS['E'] = PFX + f'''<#P> a rr:TriplesMap; {LS_P};
+  rr:subjectMap [ rr:template "http://ex/p/{{id}}" ];
+  rr:predicateObjectMap [ rr:predicate ex:name ; rr:objectMap [ rml:reference "name" ] ] .
+<#Nobody> a rr:TriplesMap; rml:logicalSource [ rml:source "in/empty.csv"; rml:referenceFormulation ql:CSV ];
+  rr:subjectMap [ rr:template "http://other/e/{{eid}}" ];
+  rr:predicateObjectMap [ rr:predicate ex:label ; rr:objectMap [ rml:reference "elabel" ] ; rr:graph ex:g9 ] .
+'''
 PARTS = ['NO', 'PARTIAL-AGGREGATIONS', 'MAXIMAL']
 FILE_VALUES = ['kg', 'kg.nt', 'kg.ttl', 'kg.nq', 'res.tar.gz', 'sub/kg', 'a/b/c/kg.nt', './kg', 'kg.', '.hidden', '.hidden.nt',
                'o.d/kg', 'x y.nt', 'sub//kg.nt', 'sub/./kg', 'UPPER.NT', 'k-g_1', 'sub/.nt', 'é.nt', '..kg']
@@ -146,6 +154,8 @@ def write_inputs(w):
         f.write(PEOPLE)
     with open(os.path.join(w, 'in', 'cities.csv'), 'w') as f:
         f.write(CITIES)
+    with open(os.path.join(w, 'in', 'empty.csv'), 'w') as f:
+        f.write('eid,elabel\n')
     for k, v in MAPPINGS.items():
         with open(os.path.join(w, 'in', f'm{k}.ttl'), 'w') as f:
             f.write(v)
@@ -160,7 +170,7 @@ def gen_sequence(rng, facts, special=None):
     absolute = rng.random() < 0.2
     n = rng.randrange(2, 6)
     same_mapping = rng.random() < 0.3
-    m0 = rng.choice('ABCD')
+    m0 = rng.choice('ABCDE')
     runs = []
     if mode == 'file':
         base = rng.choice(FILE_VALUES)
@@ -170,7 +180,7 @@ def gen_sequence(rng, facts, special=None):
         alt = rng.choice([base, base, base.rstrip('/') + '/', rng.choice(DIR_VALUES)])
     for _ in range(n):
         fmt = rng.choice(['N-TRIPLES', 'N-TRIPLES', 'N-QUADS'])
-        r = {'mapping': m0 if same_mapping else rng.choice('ABCD'), 'format': fmt,
+        r = {'mapping': m0 if same_mapping else rng.choice('ABCDE'), 'format': fmt,
              'format_spelling': rng.choice([fmt, fmt.lower(), fmt.title()]),
              'partitioning': rng.choice(PARTS), 'nproc': 2 if rng.random() < 0.15 else 1,
              'output_dir': None, 'output_file': None}
